@@ -538,6 +538,15 @@ def judge(prop, case, log):
                 V("child-mask-not-empty@" + fk, "the program started with blocked signals %x" % blk)
             if ign & 0x7fffffff:
                 V("child-ignores-signals@" + fk, "the program started with ignored signals %x" % (ign & 0x7fffffff))
+            if m.get("fork"):
+                # the child side of a fork-mode start does not exec: handlers would survive too
+                obs["fork_child_sig_checks"] = obs.get("fork_child_sig_checks", 0) + 1
+                try:
+                    cgt = int(sg.get("SigCgt", "0"), 16)
+                except ValueError:
+                    cgt = 0
+                if cgt & 0x7fffffff:
+                    V("fork-child-keeps-handlers@" + fk, "the child side of a fork-mode start still has handlers for signals %x" % (cgt & 0x7fffffff))
         return vs, obs, obs["caller_checks"] > 0
 
     if prop == "C06":
